@@ -48,6 +48,18 @@ R6 side agreement (P11).  The transfer helpers name the two sides of a copy in t
    agree -- `test -d <src>` answered by the destination host picks the wrong tar writer and a directory arrives as
    one file.  Values forwarded under a side-named keyword (`src_connector=`, `dst_locations=`, ...) keep their side.
    Commands that legitimately name both paths (`cp src dst` on one location) and log/format calls are not constrained.
+R7 destination fan-out (every destination is prepared and written).  A transfer helper that receives the destinations as
+   a collection (`dst_locations` / `locations`) must act on EVERY element of it: each operation that changes a destination
+   host -- `connector.run` of a command that is not a read-only probe (`mkdir -p dst`, `ln`/`cp`; `test -d` and the like,
+   or a command of unknown first word whose output is captured, are probes and may ask one representative location),
+   `get_stream_writer`, and every resolved helper that (transitively, small inlining bound) performs such an operation on
+   the location / collection it is handed -- takes its location from an iteration over the COMPLETE collection (statement
+   loop, comprehension, `enumerate` / `zip` / `range(len(..))` indexing, aliases, `list(..)`/`sorted(..)`/`[:]` copies,
+   filtered comprehensions) or forwards the complete collection; a fixed element (`dst_locations[0]`,
+   `next(iter(..))`, `.pop()`), a proper slice (`[:1]`) or a loop that is unconditionally left after its first iteration
+   serves one destination only: the tar writers of the remaining locations find no target directory / no data arrives
+   there.  Enumerated over core/utils.py and deployment/connector/base.py; a helper (of any module) that receives the
+   collection and acts on it is followed through the resolved call and checked with the parameter as the collection.
 
 Left out: equality of contents/structure/executable bits at the destination (needs execution); the tar flag
 `p` (not necessary: the x bit survives any usual umask); connector-specific copy paths of docker/ssh/kubernetes/queue managers (outside the property's
@@ -86,7 +98,9 @@ META = {
         "link/copy idioms; effective dereference argument/flag of every copy primitive (shutil, tar create commands, "
         "aiotarstream writers); effective `available` argument (explicit or resolved constructor default) of the DataLocation "
         "registered before its copy is awaited; agreement of connector / location / path-operand / stream-direction sides at every "
-        "connector operation of the transfer helpers. Necessary structural conditions only."
+        "connector operation of the transfer helpers; coverage of the destination collection by every destination-changing "
+        "operation (mkdir/ln/cp runs, stream writers, helpers that perform them): location drawn from an iteration over the complete "
+        "collection, not from a fixed element or proper slice. Necessary structural conditions only."
     ),
     "undecided": "byte equality of regular-file contents, directory structure and executable bits at the destination (needs execution)",
     "assumptions": [
@@ -1065,10 +1079,302 @@ def r6(ctx):
                               "(3 run probes of get_remote_to_remote_write_command, 1 of get_local_to_remote_destination, reader + writer of copy_remote_to_remote expected)")
 
 
-RULES = [("R1", r1), ("R2", r2), ("R3", lambda ctx: (r3(ctx), r3b(ctx))), ("R4", r4), ("R5", r5), ("R6", r6)]
-FLOORS = {"R1": 10, "R2": 10, "R3": 6, "R4": 14, "R5": 6, "R6": 8}
+# --------------------------------------------------------------------------- R7
+
+PLURAL_DST = ("dst_locations", "locations")
+# first words of commands that only *ask* a location something (one representative location may answer)
+PROBE_WORDS = {"test", "[", "[[", "stat", "ls", "readlink", "realpath", "cat", "head", "tail", "wc", "find", "du", "df", "echo", "printf", "which", "command",
+               "type", "file", "true", "pwd", "id", "whoami", "hostname", "uname", "env", "printenv", "md5sum", "sha1sum", "sha256sum", "cksum", "nproc", "free",
+               "basename", "dirname"}
+_WRAPPERS = ("list", "tuple", "sorted", "reversed", "iter", "set", "frozenset")
+_PICKERS = ("next", "min", "max")
+LOC_POS = {"run": 0, "get_stream_writer": 1}
+
+
+class _Cov:
+    """Where a location / collection expression comes from: `root` (a collection parameter), `whole` (it denotes
+    the collection or the parameter itself, not an element), `complete` (every element is visited / kept), `how`."""
+    __slots__ = ("root", "whole", "complete", "how", "loop")
+
+    def __init__(self, root, whole, complete, how, loop=None):
+        self.root, self.whole, self.complete, self.how, self.loop = root, whole, complete, how, loop
+
+
+def _is_full_slice(s) -> bool:
+    return isinstance(s, ast.Slice) and s.lower is None and s.upper is None and s.step is None
+
+
+def _trace(f, e: ast.AST, at: ast.AST, loops, roots, depth: int = 8):
+    """Trace a location operand / collection argument back to one of the collection parameters `roots` -> _Cov | None."""
+    if depth <= 0 or e is None:
+        return None
+    nxt = lambda x: _trace(f, x, at, loops, roots, depth - 1)  # noqa: E731
+    if isinstance(e, (ast.Starred, ast.Await, ast.NamedExpr)):
+        return nxt(e.value)
+    if isinstance(e, ast.Name):
+        lb = loop_binding(f, e.id, at, loops)
+        if lb is not None:
+            lp, pos = lb
+            it = lp.iter
+            if isinstance(it, ast.Call) and isinstance(it.func, ast.Name) and not it.keywords:
+                if it.func.id == "enumerate" and it.args and pos == 1:
+                    it, pos = it.args[0], None
+                elif it.func.id == "zip" and pos is not None and 0 <= pos < len(it.args) and not any(isinstance(a, ast.Starred) for a in it.args):
+                    it, pos = it.args[pos], None
+            if pos is not None:
+                return None
+            t = nxt(it)
+            if t is None:
+                return None
+            return _Cov(t.root, False, t.complete, t.how if not t.complete else f"each element of `{' '.join(unparse(lp.iter).split())[:60]}`", lp)
+        if e.id in roots:
+            return _Cov(e.id, True, True, e.id)
+        d = deref(f, e)
+        return nxt(d) if d is not e else None
+    if isinstance(e, ast.Subscript):
+        t = nxt(e.value)
+        if t is None or not t.whole:
+            return None
+        if isinstance(e.slice, ast.Slice):
+            if _is_full_slice(e.slice):
+                return t
+            return _Cov(t.root, True, False, f"the slice `{unparse(e)}`")
+        # C[i] with i running over range(len(C)) visits every element
+        ix = e.slice
+        if isinstance(ix, ast.Name):
+            lb = loop_binding(f, ix.id, at, loops)
+            if lb is not None and lb[1] is None:
+                it = lb[0].iter
+                if isinstance(it, ast.Call) and isinstance(it.func, ast.Name) and it.func.id == "range" and len(it.args) == 1 and not it.keywords:
+                    a = deref(f, it.args[0])
+                    if isinstance(a, ast.Call) and isinstance(a.func, ast.Name) and a.func.id == "len" and len(a.args) == 1:
+                        t2 = nxt(a.args[0])
+                        if t2 is not None and t2.whole and t2.root == t.root:
+                            return _Cov(t.root, False, t.complete and t2.complete, f"`{unparse(e)}` for every index", lb[0])
+                return None  # an index computed some other way: not decidable here
+            if lb is not None:
+                return None
+        return _Cov(t.root, False, False, f"the single element `{' '.join(unparse(e).split())}`")
+    if isinstance(e, ast.Call):
+        fn = e.func
+        if isinstance(fn, ast.Name) and e.args and not any(isinstance(a, ast.Starred) for a in e.args):
+            if fn.id in _WRAPPERS and len(e.args) == 1:
+                return nxt(e.args[0])
+            if fn.id in _PICKERS:
+                t = nxt(e.args[0])
+                return _Cov(t.root, False, False, f"the single element `{' '.join(unparse(e).split())}`") if t is not None and t.whole else None
+        if isinstance(fn, ast.Attribute) and not e.keywords:
+            if fn.attr == "copy" and not e.args:
+                return nxt(fn.value)
+            if fn.attr == "pop":
+                t = nxt(fn.value)
+                return _Cov(t.root, False, False, f"the single element `{' '.join(unparse(e).split())}`") if t is not None and t.whole else None
+        return None
+    if isinstance(e, (ast.List, ast.Tuple, ast.Set)) and e.elts:
+        ts = [(x, nxt(x)) for x in e.elts]
+        if len(ts) == 1 and isinstance(ts[0][0], ast.Starred) and ts[0][1] is not None and ts[0][1].whole:
+            return ts[0][1]  # [*C]
+        hit = next((t for _x, t in ts if t is not None), None)
+        if hit is not None and all(t is not None and t.root == hit.root and not t.whole and t.complete and t.loop is hit.loop for _x, t in ts):
+            return _Cov(hit.root, True, True, hit.how, hit.loop)  # `[loc]` handed on for every `loc` of the collection
+        if hit is not None and all(t is not None and t.root == hit.root for _x, t in ts) and not any(isinstance(x, ast.Starred) and t.whole and t.complete for x, t in ts):
+            return _Cov(hit.root, True, False, f"the hand-picked element(s) `{' '.join(unparse(e).split())[:60]}`")
+        return None
+    if isinstance(e, (ast.ListComp, ast.SetComp, ast.GeneratorExp)) and len(e.generators) == 1:
+        gen = e.generators[0]
+        if isinstance(gen.target, ast.Name) and isinstance(e.elt, ast.Name) and e.elt.id == gen.target.id:
+            t = nxt(gen.iter)  # a filter (`if ...`) is a selection by a property of the element, like a guarded loop body
+            return _Cov(t.root, True, t.complete, t.how) if t is not None and t.whole else None
+        return None
+    return None
+
+
+def _first_words(f, e: ast.AST, depth: int = 5):
+    """Set of possible first shell words of a command expression (None inside = unknown)."""
+    if depth <= 0 or e is None:
+        return {None}
+    d = deref(f, e) if isinstance(e, ast.Name) else e
+    if isinstance(d, ast.Name):
+        return {None}
+    if isinstance(d, (ast.List, ast.Tuple)):
+        return _first_words(f, d.elts[0], depth - 1) if d.elts and not isinstance(d.elts[0], ast.Starred) else {None}
+    if isinstance(d, ast.Constant) and isinstance(d.value, str):
+        w = d.value.split()
+        return {w[0].rsplit("/", 1)[-1]} if w else {None}
+    if isinstance(d, ast.JoinedStr):
+        v = d.values[0] if d.values else None
+        if isinstance(v, ast.Constant) and isinstance(v.value, str) and v.value.split() and (len(v.value.split()) > 1 or v.value[-1:].isspace() or len(d.values) == 1):
+            return {v.value.split()[0].rsplit("/", 1)[-1]}
+        return {None}
+    if isinstance(d, ast.BinOp) and isinstance(d.op, ast.Add):
+        return _first_words(f, d.left, depth - 1)
+    if isinstance(d, ast.IfExp):
+        return _first_words(f, d.body, depth - 1) | _first_words(f, d.orelse, depth - 1)
+    return {None}
+
+
+def _changes_host(f, c: ast.Call):
+    """Is the connector operation `c` one that changes the addressed host (-> description) or a probe (-> None)?"""
+    name = _callee_name(c)
+    if name == "get_stream_writer":
+        return "get_stream_writer"
+    if name != "run":
+        return None
+    words = _first_words(f, _kw(c, "command", 1))
+    known = sorted(w for w in words if w is not None)
+    if known and None not in words:
+        eff = [w for w in known if w not in PROBE_WORDS]
+        return f"run `{'|'.join(eff)}`" if eff else None
+    if any(w not in PROBE_WORDS for w in known):
+        return f"run `{'|'.join(w for w in known if w not in PROBE_WORDS)}`"
+    # first word not visible: an operation whose output is asked for is a probe, one run for its effect is not
+    cap = _kw(c, "capture_output")
+    known_c, v = const_of(f, cap)
+    return None if (known_c and v is True) else "run `<command>`"
+
+
+def _bind(callee, call: ast.Call):
+    """[(parameter name, argument expression)] of a resolved call ([] when */** hide the binding)."""
+    if any(isinstance(a, ast.Starred) for a in call.args) or any(k.arg is None for k in call.keywords):
+        return []
+    a = callee.node.args
+    pos = [p.arg for p in list(a.posonlyargs) + list(a.args)]
+    is_static = any(unparse(d) == "staticmethod" for d in callee.node.decorator_list)
+    if callee.cls is not None and not is_static and pos and isinstance(call.func, ast.Attribute):
+        pos = pos[1:]
+    names = set(pos) | {p.arg for p in a.kwonlyargs}
+    out = [(pos[i], x) for i, x in enumerate(call.args) if i < len(pos)]
+    out += [(k.arg, k.value) for k in call.keywords if k.arg in names]
+    return out
+
+
+def _acts_on(prog, callee, param: str, depth: int, memo: dict) -> bool:
+    """Does `callee` (transitively, `depth` resolved calls) change the host(s) denoted by its parameter `param`
+    (a location or a collection of locations)?"""
+    key = (callee.qualname, param)
+    if key in memo:
+        return memo[key]
+    memo[key] = False
+    loops = loops_of(callee)
+    res = False
+    for c in callee.calls():
+        name = _callee_name(c)
+        if isinstance(c.func, ast.Attribute) and name in LOC_POS:
+            loc = _kw(c, "location", LOC_POS[name])
+            if loc is not None and _trace(callee, loc, c, loops, {param}) is not None and _changes_host(callee, c) is not None:
+                res = True
+                break
+        if isinstance(c.func, ast.Attribute) and name in SIDE_OPS:
+            continue  # the connector interface is the boundary: its implementations are not transfer helpers
+        if depth > 0:
+            for q in prog.resolve_call(callee, c):
+                t = prog.functions.get(q)
+                if t is None or t is callee:
+                    continue
+                if any(_trace(callee, x, c, loops, {param}) is not None and _acts_on(prog, t, p, depth - 1, memo) for p, x in _bind(t, c)):
+                    res = True
+                    break
+            if res:
+                break
+    memo[key] = res
+    return res
+
+
+def _leaves_early(f, c: ast.Call, lp, var: str) -> bool:
+    """The statement loop `lp` cannot come back to its head once `c` ran, and `c` is not selected by a test on the
+    loop variable inside the loop (a search loop such as copy_same_connector's): only the first element is served."""
+    g = f.cfg
+    lids = ids_at(f, lp.node)
+    cid = ids_at(f, c)
+    if not lids or not cid:
+        return False
+    if any(g.path(x, lids, kinds=NORMAL) is not None for x in cid):
+        return False
+    inside = {id(n) for n in ast.walk(lp.node)}
+    for x in cid:
+        for e, _truth, tid in guard_atoms(g, x):
+            t_ast = g.nodes[tid].ast
+            if t_ast is not None and id(t_ast) in inside and any(isinstance(n, ast.Name) and n.id == var for n in ast.walk(t_ast)):
+                return False
+    return True
+
+
+def r7(ctx):
+    """Destination fan-out: every host-changing operation of a transfer helper that holds the destinations as a
+    collection serves every element of the collection."""
+    prog = ctx.prog
+    scope = {id(prog.module(UTILS)), id(prog.module(BASE))}
+    prog.func(f"{UTILS}.get_remote_to_remote_write_command")
+    prog.func(f"{BASE}.copy_remote_to_remote")
+    work: dict[str, set] = {}
+    for f in prog.all_funcs():
+        if id(f.module) in scope:
+            ps = {p for p in f.params if p in PLURAL_DST}
+            if ps:
+                work[f.qualname] = ps
+    memo: dict = {}
+    done: dict[str, set] = {}
+    todo = [(q, 0) for q in sorted(work)]
+    n = 0
+    while todo:
+        q, lvl = todo.pop(0)
+        roots = work[q] - done.get(q, set())
+        if not roots:
+            continue
+        done.setdefault(q, set()).update(roots)
+        f = prog.functions[q]
+        loops = loops_of(f)
+        short = f.qualname.split(".", 3)[-1]
+        for c in f.calls():
+            name = _callee_name(c)
+            sites = []  # (what, operand expression, coverage)
+            if isinstance(c.func, ast.Attribute) and name in LOC_POS:
+                loc = _kw(c, "location", LOC_POS[name])
+                cov = _trace(f, loc, c, loops, roots) if loc is not None else None
+                what = _changes_host(f, c) if cov is not None else None
+                if cov is not None and what is not None and not cov.whole:
+                    sites.append((f"{name}:{what}", loc, cov, None))
+            else:
+                for tq in prog.resolve_call(f, c):
+                    t = prog.functions.get(tq)
+                    if t is None or t is f:
+                        continue
+                    for p, x in _bind(t, c):
+                        cov = _trace(f, x, c, loops, roots)
+                        if cov is None or not _acts_on(prog, t, p, 2, memo):
+                            continue
+                        sites.append((f"{t.name}({p}=)", x, cov, (t, p) if cov.whole else None))
+            seen = set()
+            for what, x, cov, follow in sites:
+                if (what, cov.root) in seen:
+                    continue
+                seen.add((what, cov.root))
+                complete, how = cov.complete, cov.how
+                if complete and cov.loop is not None and not cov.loop.is_comp:
+                    var = next((nm.id for nm in ast.walk(cov.loop.target) if isinstance(nm, ast.Name)), "")
+                    if _leaves_early(f, c, cov.loop, var):
+                        complete, how = False, f"the first element of `{unparse(cov.loop.iter)}` (the loop is left right after it)"
+                n += 1
+                ctx.ob("R7", f"{short}: {what} serves every location of `{cov.root}` ({how})", complete, func=f, node=c,
+                       instance=f"fanout:{what}:{cov.root}",
+                       message=f"{short}: `{' '.join(unparse(c).split())[:150]}` changes the destination on {how} only, not on every location of `{cov.root}`: with two or more "
+                               "destination locations the others are not prepared (no target directory for their tar writer) / receive no data, and the multiplexed copy breaks or "
+                               "leaves them incomplete",
+                       witness=[f"operand: {' '.join(unparse(x).split())[:120]}", f"collection parameter: {cov.root} of {f.qualname}"])
+                if follow is not None and complete and lvl < 3:
+                    t, p = follow
+                    if p not in done.get(t.qualname, set()):
+                        work.setdefault(t.qualname, set()).add(p)
+                        todo.append((t.qualname, lvl + 1))
+    ctx.require(n >= 1, "C22.R7: no destination-changing operation over a collection of destination locations found in the transfer helpers")
+
+
+RULES = [("R1", r1), ("R2", r2), ("R3", lambda ctx: (r3(ctx), r3b(ctx))), ("R4", r4), ("R5", r5), ("R6", r6), ("R7", r7)]
+FLOORS = {"R1": 10, "R2": 10, "R3": 6, "R4": 14, "R5": 6, "R6": 8, "R7": 5}
 
 BC = f"{BASE}.BaseConnector"
+_W = f"{UTILS}.get_remote_to_remote_write_command"
+_MKDIR_ALL = "await asyncio.gather(*(asyncio.create_task(dst_connector.run(location=dst_location, command=['mkdir', '-p', shlex.quote(dst)])) for dst_location in dst_locations))"
 _RP_FIRST = "DataLocation(location=location, path=path, relpath=relpath or path, data_type=data_type, available=False)"
 _RP_INNER = "DataLocation(location=location.wraps, path=str(path), relpath=relpath or str(path), data_type=data_type, available=False)"
 _RP_INNER_T = "DataLocation(location=location.wraps, path=inner_path, relpath=relpath or inner_path, data_type=data_type, available=False)"
@@ -1188,7 +1494,51 @@ VARIANTS = [
     V("copy_remote_to_remote helper: sides crossed when asking for the writer command", BASEFILE, f"{BASE}.copy_remote_to_remote",
       "src_connector=source_connector, src_location=source_location, src=src, dst_connector=connector, dst_locations=locations, dst=dst",
       "src_connector=connector, src_location=locations[0], src=src, dst_connector=connector, dst_locations=locations, dst=dst", "R6"),
+    # ---- R7
+    V("get_remote_to_remote_write_command: mkdir of the destination on the first destination location only (seeded C22/1)", UTILSFILE, _W, _MKDIR_ALL,
+      "await dst_connector.run(location=dst_locations[0], command=['mkdir', '-p', shlex.quote(dst)])", "R7", control=True),
+    V("get_remote_to_remote_write_command: mkdir fan-out over a one-element slice", UTILSFILE, _W, "for dst_location in dst_locations))", "for dst_location in dst_locations[:1]))", "R7"),
+    V("get_remote_to_remote_write_command: mkdir on a representative location held in a temporary, command in a local", UTILSFILE, _W, _MKDIR_ALL,
+      "first = next(iter(dst_locations))\n            make_dir = ['mkdir', '-p', shlex.quote(dst)]\n            await dst_connector.run(location=first, command=make_dir)", "R7"),
+    V("get_remote_to_remote_write_command: statement loop left after the first mkdir", UTILSFILE, _W, _MKDIR_ALL,
+      "for dst_location in dst_locations:\n                await dst_connector.run(location=dst_location, command=['mkdir', '-p', shlex.quote(dst)])\n                break", "R7"),
+    V("get_remote_to_remote_write_command: mkdir moved into a per-location helper that is called for the first location only", UTILSFILE, _W, _MKDIR_ALL,
+      "await _make_destination(dst_connector, dst_locations[0], dst)", "R7",
+      append="async def _make_destination(connector, location, path):\n    await connector.run(location=location, command=['mkdir', '-p', shlex.quote(path)])\n"),
+    V("get_remote_to_remote_write_command: mkdir moved into a helper that receives every location but serves the first", UTILSFILE, _W, _MKDIR_ALL,
+      "await _make_destinations(dst_connector, dst_locations, dst)", "R7",
+      append="async def _make_destinations(connector, targets, path):\n    await connector.run(location=targets[0], command=['mkdir', '-p', shlex.quote(path)])\n"),
+    V("copy_remote_to_remote helper: a tar writer is opened on the first destination only", BASEFILE, f"{BASE}.copy_remote_to_remote",
+      "connector.get_stream_writer(command=writer_command, location=location)) for location in locations))",
+      "connector.get_stream_writer(command=writer_command, location=location)) for location in locations[:1]))", "R7"),
+    V("BaseConnector.copy_local_to_remote: the archive is sent to the first location only", BASEFILE, f"{BC}.copy_local_to_remote",
+      "await asyncio.gather(*(asyncio.create_task(copy_local_to_remote(connector=self, location=location, src=src, dst=dst, writer_command=['tar', 'xpf', '-', '-C', '/'])) for location in locations))",
+      "await copy_local_to_remote(connector=self, location=locations[0], src=src, dst=dst, writer_command=['tar', 'xpf', '-', '-C', '/'])", "R7"),
+    V("BaseConnector.copy_remote_to_remote: only the first remaining location is handed to the stream copy", BASEFILE, f"{BC}.copy_remote_to_remote",
+      "await copy_remote_to_remote(connector=self, locations=locations,", "await copy_remote_to_remote(connector=self, locations=locations[:1],", "R7"),
+    V("copy_remote_to_remote helper: the writer command is prepared for the last destination only", BASEFILE, f"{BASE}.copy_remote_to_remote",
+      "dst_connector=connector, dst_locations=locations, dst=dst", "dst_connector=connector, dst_locations=[locations[-1]], dst=dst", "R7"),
     # ---- benign
+    V("benign: mkdir awaited one location after the other", UTILSFILE, _W, _MKDIR_ALL,
+      "for target in dst_locations:\n                await dst_connector.run(location=target, command=['mkdir', '-p', shlex.quote(dst)])", None),
+    V("benign: mkdir over an index range / enumerate of a copy of the destinations", UTILSFILE, _W, _MKDIR_ALL,
+      "targets = list(dst_locations)\n            for i in range(len(targets)):\n                await dst_connector.run(location=targets[i], command=['mkdir', '-p', shlex.quote(dst)])\n"
+      "            for _n, again in enumerate(sorted(dst_locations)):\n                await dst_connector.run(location=again, command=['mkdir', '-p', shlex.quote(dst)])", None),
+    V("benign: mkdir moved into a helper that serves every location it receives", UTILSFILE, _W, _MKDIR_ALL,
+      "await _make_destinations(dst_connector, dst_locations, dst)", None,
+      append="async def _make_destinations(connector, targets, path):\n    make_dir = ['mkdir', '-p', shlex.quote(path)]\n"
+             "    await asyncio.gather(*(asyncio.create_task(_make_destination(connector, target, make_dir)) for target in targets))\n\n\n"
+             "async def _make_destination(connector, location, command):\n    await connector.run(location=location, command=command)\n"),
+    V("benign: one more read-only probe of the representative destination location", UTILSFILE, _W,
+      "if status > 1:\n        raise WorkflowExecutionException(is_dst_dir)",
+      "await dst_connector.run(location=dst_locations[0], command=['stat', shlex.quote(dst)], capture_output=True)\n    if status > 1:\n        raise WorkflowExecutionException(is_dst_dir)", None),
+    V("benign: one stream copy per remaining location (`locations=[one]` for every `one`)", BASEFILE, f"{BC}.copy_remote_to_remote",
+      "await copy_remote_to_remote(connector=self, locations=locations, src=src, dst=dst, source_connector=source_connector, source_location=source_location)",
+      "for one in locations:\n            await copy_remote_to_remote(connector=self, locations=[one], src=src, dst=dst, source_connector=source_connector, source_location=source_location)", None),
+    V("benign: tar writers opened in a statement loop over an alias of the destinations", BASEFILE, f"{BASE}.copy_remote_to_remote",
+      "write_contexts = await asyncio.gather(*(asyncio.create_task(connector.get_stream_writer(command=writer_command, location=location)) for location in locations))",
+      "targets = locations\n        opening = []\n        for target in targets:\n            opening.append(asyncio.create_task(connector.get_stream_writer(command=writer_command, location=target)))\n"
+      "        write_contexts = await asyncio.gather(*opening)", None),
     V("benign: transfer_data spells the constructor default out", MGRFILE, f"{MGR}.transfer_data",
       "relpath=src_data_location.relpath, data_type=DataType.PRIMARY)", "relpath=src_data_location.relpath, data_type=DataType.PRIMARY, available=False)", None),
     V("benign: source probe through connector/location/operand temporaries", UTILSFILE, f"{UTILS}.get_remote_to_remote_write_command",
